@@ -8,6 +8,9 @@ hook_commits = [l.split()[0] for l in hooks if l.split(' ',1)[1].startswith('ver
 TRUST = "Trusted: go/packages+go/ssa (x/tools v0.29.0) IR construction, the govc VC generator (exercised by the must-fail corpus in selftest/), z3 5.1.0 / cvc5 1.0.3 / z3 4.8.12, and the trusted library specifications listed under 'assumptions' in the evidence (strings.Compare, strconv.Parse*, fmt.Errorf, ...). int is 64 bit; no concurrency; callee panics are separate safety obligations."
 
 claimed = {
+ 'C10': dict(
+   text="Proof, all inputs: val.Conv and the scalar conversion helpers toInt8..toUInt64, toDecimal64, toBool are verified in exact machine semantics (bit-vectors, IEEE floats) against denotesInt/denotesFloat: a nil error implies the result denotes exactly the source number for every Go integer kind, float32/float64 (integral and in range, no rounding) and numeric strings (strconv.Parse* trusted). Not decided: the list forms (to*List), time.Time and reflect fall-backs, node.NewValue front end.",
+   ref="7 (C10)", technique="deductive verification: weakest-precondition VCs from go/ssa (bit-vector + floating-point theories), contracts in val/contracts_verif.go, discharged by z3/cvc5"),
  'C17': dict(
    text="Proof, all inputs: every Compare method of package val is verified (exact 64-bit machine semantics, bit-vectors) against the mathematical order cmpv (numeric order for every signed/unsigned width, IEEE order for decimal64, byte order for strings/identity names, id order for enums, false<true); the order laws (range, reflexive, antisymmetric, transitive, strict-transitive, equality-transitive, agreement with integer order) are lemmas over cmpv discharged by SMT. Not decided: reflect-based lookups in nodeutil (reflect is outside the subset).",
    ref="7 (C17)", technique="deductive verification: weakest-precondition VCs from go/ssa, contracts in val/contracts_verif.go, discharged by z3/cvc5"),
